@@ -117,7 +117,7 @@ theorem failed_emit (cfg : Cfg) (f : Bool) (st : PSt ω) (hf : st.codec.failed =
     | error e => simp only [hpk] at hres; subst hres; exact ⟨by simp, rfl⟩
     | ok b =>
       simp only [hpk] at hres
-      by_cases ha : assertPanics cfg.v1shape f (st.buf.take cfg.bs).length st.n = true
+      by_cases ha : assertPanics cfg.v1shape cfg.assertExtra f (st.buf.take cfg.bs).length st.n = true
       · simp only [ha, if_true] at hres; subst hres; exact ⟨by simp, rfl⟩
       · simp only [ha, Bool.false_eq_true, if_false, encode_failed wr cfg.pieces st.codec b hf] at hres
         subst hres; exact ⟨by simp, rfl⟩
